@@ -132,6 +132,7 @@ FIXED = {
  "fs:part-number-not-validated": "205d9a8",
  "fs:stale-checksum-after-complete": "47e9b00", "fs:stale-metadata-after-complete": "47e9b00",
  "fs:stale-checksum-after-copy": "aa68bb7", "fs:stale-metadata-after-copy": "aa68bb7",
+ "fs:delete-objects-duplicate-key": "7d30be5", "fs:delete-objects-omits-missing-keys": "7d30be5",
 }
 # repairs whose text says explicitly that it describes the code before the repair
 BEFORE = {"fs:head-missing-key-code", "fs:delete-missing-key-error", "fs:missing-bucket-reported-as-missing-key",
@@ -139,7 +140,8 @@ BEFORE = {"fs:head-missing-key-code", "fs:delete-missing-key-error", "fs:missing
           "fs:complete-missing-part-internal-error", "fs:failed-complete-consumes-upload",
           "fs:unknown-upload-code", "fs:list-parts-unknown-upload", "fs:part-number-not-validated",
           "fs:stale-checksum-after-complete", "fs:stale-metadata-after-complete",
-          "fs:stale-checksum-after-copy", "fs:stale-metadata-after-copy"}
+          "fs:stale-checksum-after-copy", "fs:stale-metadata-after-copy",
+          "fs:delete-objects-duplicate-key", "fs:delete-objects-omits-missing-keys"}
 
 lines, findings = [], []
 for i, (cls, ops, what) in enumerate(W, 1):
